@@ -147,7 +147,7 @@ var roleTable = map[string]roleSig{
 	"pkg/board/fen||parsePiece":                 {params: []string{"int32"}, results: []string{"Color", "Piece", "bool"}},
 	"pkg/board/fen||printPiece":                 {params: []string{"Color", "Piece"}, results: []string{"int32"}},
 	"pkg/engine|Engine|haltSearchIfActive":      {recv: "Engine", params: []string{"Context"}, results: []string{"PV", "bool"}},
-	"pkg/engine/uci|Driver|searchCompleted":     {recv: "Driver", params: []string{"Context", "PV"}},
+	"pkg/engine/uci|Driver|searchCompleted":     {recv: "Driver", params: []string{"Context", "uint64", "PV"}},
 	"pkg/engine/uci|Driver|ensureInactive":      {recv: "Driver", params: []string{"Context"}},
 	"pkg/engine/uci|Driver|process":             {recv: "Driver", params: []string{"Context", "chan string"}},
 	"pkg/engine/console|Driver|process":         {recv: "Driver", params: []string{"Context", "chan string"}},
